@@ -1,6 +1,6 @@
 (* Props/C17.v — C17 property theorems only (single throttle; AcquireMulti is covered by these per queue,
    its loop structure is exercised on the implementation — see DESIGN.md C17). *)
-From Coq Require Import List Arith Bool.
+From Coq Require Import List Arith Bool Permutation.
 From Verif Require Import Model.C17_PQueue Proofs.C17.
 Import ListNotations.
 
@@ -50,6 +50,21 @@ Proof.
   exists x. split; [now left|]. cbn. rewrite E. cbn. now rewrite Nat.eqb_refl.
 Qed.
 Print Assumptions C17_waiter_implies_holder.
+
+(* AcquireMulti, one attempt over any number of queues, any queue waited on, any availability of the others: a failed
+   attempt gives back exactly the slots it had taken, each once - so nothing is held while it waits again and no slot
+   is lost or released twice; it then waits on a queue that could not be had, not on the one just waited on; a
+   successful attempt holds every queue exactly once *)
+Theorem C17_multi_backoff_exact : forall n lockI try acq k, lockI < n -> attempt n lockI try = (acq, Some k) ->
+  Permutation (cleanup lockI k) acq /\ k < n /\ k <> lockI /\ try k = false.
+Proof. intros n lockI try acq k Hl H. split; [now apply (backoff_releases_exactly n lockI try)|now apply (backoff_target n lockI try acq)]. Qed.
+Print Assumptions C17_multi_backoff_exact.
+Theorem C17_multi_success_all : forall n lockI try acq, lockI < n -> attempt n lockI try = (acq, None) -> Permutation acq (seq 0 n).
+Proof. exact success_holds_all. Qed.
+Print Assumptions C17_multi_success_all.
+(* a cleanup that forgets the slot of the queue it waited on when the failed index is lower is refuted *)
+Theorem C17_multi_forgetful_refuted : exists n lockI try acq k, lockI < n /\ attempt n lockI try = (acq, Some k) /\ ~ Permutation (cleanup_forgetful lockI k) acq.
+Proof. exact forgetful_leaks. Qed.
 
 Example C17_nonvacuous :
   run (init 2) [Acq 1; Acq 2; Acq 3; TryAcq 4; Acq 5; Rel 1 7; Cancel 3 0; Cancel 5 0; Rel 2 0]
